@@ -1600,10 +1600,15 @@ func (r *qnRun) check() *vs.Violation {
 		d := ds[0]
 		if d.closeNil && !d.checkedAck {
 			d.checkedAck = true
+			// the monitor object of the connection that accepted the stream
 			var peer *qnConn
-			for _, qc := range r.log.order {
-				if (qc.vantage == "server") == r.p.streams[i].fromClient {
-					peer = qc
+			pc := r.srvConn
+			if !r.p.streams[i].fromClient {
+				pc = r.cliConn
+			}
+			if pc != nil && pc.log != nil {
+				if h, ok := pc.log.Handler().(*qnHandler); ok {
+					peer = h.conn
 				}
 			}
 			if peer != nil {
